@@ -9,6 +9,7 @@ from nbsym import engine as E
 
 ID = "C07"
 TITLE = "record summary fields (AC/AN/UAN/NS/DP/RCOUNT/ACP/AFP/AOP) equal the values recomputed from the sample columns; every INFO/FORMAT value has its declared cardinality (1/A/R/G) for the record's allele count and the sample's ploidy; GT well-formed; ALT has REF's length and differs only at SNVPOS"
+TECHNIQUE = 'symbolic identities of the record summary discharged by z3; formatted lines of solver-enumerated records re-parsed by an independent parser'
 ENCODED = ["mchap.application.baseclass.program.sumarise_vcf_record", "mchap.application.baseclass.LocusAssemblyData.format_vcf_record",
            "mchap.io.vcf.records.format_info_field", "mchap.io.vcf.records.format_sample_field", "mchap.io.vcf.records.format_record", "mchap.io.vcf.util.vcfstr",
            "mchap.application.assemble.program.call_sample_genotypes", "mchap.application.call.program.call_sample_genotypes",
